@@ -76,3 +76,29 @@ package twins
 //@   loop 1 invariant [r] forall b int :: {r[b]} 0 <= b && b < len(r) ==> len(r[b]) == len(input) - 1
 //@   loop 0 invariant [r] forall b int :: {r[b]} 0 <= b && b < len(r) ==> len(r[b]) == len(input) - 1
 //@   modifies alloc
+
+// ---- who may lead (C18: scenarios are enumerated without repetition; a twin pair shares one
+// replica id, so listing a twinned replica as leader would list it twice). assignNodeIDs gives
+// the twins the replica ids 1..t and the ordinary nodes the ids t+1..n; NewGenerator makes
+// only ordinary nodes leaders.
+//@ func assignNodeIDs property C18
+//@   ensures [node-ids] forall i int :: {nodes[i]} 0 <= i && i < len(nodes) ==> numTwins < nodes[i].ReplicaID && nodes[i].ReplicaID <= numNodes && nodes[i].TwinID == 0
+//@   ensures [twin-ids] forall i int :: {twins[i]} 0 <= i && i < len(twins) ==> 1 <= twins[i].ReplicaID && twins[i].ReplicaID <= numTwins && twins[i].ReplicaID <= numNodes
+//@   loop 0 invariant [count] id == 1 + rangeint_iter && 0 <= rangeint_iter && rangeint_iter < numNodes && (remainingTwins > 0 ==> remainingTwins == numTwins - rangeint_iter) && (remainingTwins == 0 ==> rangeint_iter >= numTwins)
+//@   loop 0 invariant [node-ids] forall i int :: {nodes[i]} 0 <= i && i < len(nodes) ==> numTwins < nodes[i].ReplicaID && nodes[i].ReplicaID <= numNodes && nodes[i].TwinID == 0
+//@   loop 0 invariant [twin-ids] forall i int :: {twins[i]} 0 <= i && i < len(twins) ==> 1 <= twins[i].ReplicaID && twins[i].ReplicaID <= numTwins && twins[i].ReplicaID <= numNodes
+//@   loop 0 invariant [lists] (cap(nodes) == 0 || fresh(nodes)) && (cap(twins) == 0 || fresh(twins)) && (cap(nodes) > 0 && cap(twins) > 0 ==> disjoint(nodes, twins))
+//@   modifies alloc
+//@ func genPartitionScenarios
+//@   trusted enumeration of partition scenarios (not under contract); allocates only
+//@   modifies alloc
+//@ func NewGenerator property C18
+//@   requires logger != nil
+//@   ensures [leaders-are-ordinary-nodes] result != nil && (forall a int :: {result.leadersPartitions[a]} 0 <= a && a < len(result.leadersPartitions) ==> settings.NumTwins < result.leadersPartitions[a].Leader && result.leadersPartitions[a].Leader <= settings.NumNodes)
+//@   loop 0 invariant [leaders] forall a int :: {g.leadersPartitions[a]} 0 <= a && a < len(g.leadersPartitions) ==> settings.NumTwins < g.leadersPartitions[a].Leader && g.leadersPartitions[a].Leader <= settings.NumNodes
+//@   loop 0 invariant [lists] (cap(g.leadersPartitions) == 0 || fresh(g.leadersPartitions)) && (cap(g.leadersPartitions) == 0 || cap(nodes) == 0 || disjoint(g.leadersPartitions, nodes))
+//@   loop 0 invariant [nodes] forall i int :: {nodes[i]} 0 <= i && i < len(nodes) ==> settings.NumTwins < nodes[i].ReplicaID && nodes[i].ReplicaID <= settings.NumNodes
+//@   loop 1 invariant [leaders] forall a int :: {g.leadersPartitions[a]} 0 <= a && a < len(g.leadersPartitions) ==> settings.NumTwins < g.leadersPartitions[a].Leader && g.leadersPartitions[a].Leader <= settings.NumNodes
+//@   loop 1 invariant [lists] (cap(g.leadersPartitions) == 0 || fresh(g.leadersPartitions)) && (cap(g.leadersPartitions) == 0 || cap(nodes) == 0 || disjoint(g.leadersPartitions, nodes))
+//@   loop 1 invariant [nodes] forall i int :: {nodes[i]} 0 <= i && i < len(nodes) ==> settings.NumTwins < nodes[i].ReplicaID && nodes[i].ReplicaID <= settings.NumNodes
+//@   opt noframe true
